@@ -349,6 +349,22 @@ var c11Config = map[string]string{
 
 func c11(c *Ctx) {
 	p, r := c.K1(), c.R
+	// ---- R5: what two builders hand to the patch layer is private to each of them: the entry-jump emitters return fresh
+	// bytes, never a view of package-level storage (shared with C01.R1 / C15.E)
+	for _, em := range emitterFuncs(p) {
+		g := returnsSharedStorage(em)
+		r.Check(g == "", "C11.R5", "emitter "+shortName(em)+" returns private bytes", p.Pos(em.Pos()), "fresh slice per call",
+			"the emitter returns a view of package-level storage ("+g+"): two builders that patch different functions share one buffer, so the jump one of them applies is the other's")
+	}
+	// ---- R6: calls of an already mocked function may run concurrently: the position a call serves in a result sequence is
+	// the one it obtained atomically and is proven in range (the rules of C05.R1–R3 on the same program)
+	{
+		sub := NewReport("C05", c.Tier)
+		sub.SetConfig("linux/amd64")
+		sc := &Ctx{Repo: c.Repo, Verif: c.Verif, Tier: c.Tier, R: sub, k1: c.k1, k2: c.k2, k2err: c.k2err, isNorm: c.isNorm}
+		c05(sc)
+		r.Import(sub, "C11.R6", func(rule string) bool { return rule == "C05.R1" || rule == "C05.R2" || rule == "C05.R3" })
+	}
 	defer func() {
 		if c.Tier == "thorough" {
 			if k2, err := c.K2(); err == nil {
